@@ -1,2 +1,215 @@
-def run(ctx):
-    pass
+"""C01 leg T: recorded executions of the real parser validated by TLC (Trace_Wilkinson)."""
+from __future__ import annotations
+
+import json
+import random
+import sys
+
+from ..common import Ctx, pmap
+from ..tlc import MachineryError, read_emitted, run_tlc, workdir
+from .. import palpha
+
+NUM_LITS = {"0", "1", "2", "3", "4", "5", "2.5"}
+NAMES = list("abcdefghijkl")
+FLAGSETS = [[], ["TWOSIDED"], ["MULTIPART"], ["TWOSIDED", "MULTIPART"], ["TWOSIDED", "MULTIPART", "MULTISTAGE"]]
+
+
+def abstract_tokens(s: str):
+    """alpha of the real lexer output (tokenize + sanitize_tokens) -> list of token records, or None."""
+    from formulaic.parser.algos.sanitize_tokens import sanitize_tokens
+    from formulaic.parser.algos.tokenize import tokenize
+
+    out = []
+    for t in sanitize_tokens(tokenize(s)):
+        k = t.kind.value
+        if k == "operator":
+            out.append({"k": "op", "s": "", "cs": [t.token] if t.token in ("in", ".") else list(t.token), "vars": []})
+        elif k == "context":
+            out.append({"k": "open" if t.token in "([" else "close", "s": t.token, "cs": [], "vars": []})
+        elif k == "value":
+            if t.token not in NUM_LITS and not t.token.startswith(("'", '"')):
+                return None
+            out.append({"k": "value", "s": t.token, "cs": [], "vars": []})
+        else:
+            out.append({"k": k, "s": t.token, "cs": [], "vars": sorted(str(v) for v in t.required_variables)})
+    return out
+
+
+def ast_str(node) -> str:
+    if isinstance(node, list):
+        return "(" + " ".join([node[0]] + [ast_str(a) for a in node[1:]]) + ")"
+    return str(node)
+
+
+def record(job):
+    i, s, cfg = job
+    try:
+        toks = abstract_tokens(s)
+    except Exception:
+        return None
+    if toks is None:
+        return None
+    from .c01 import res_str
+
+    r = palpha.parse_terms(s, cfg)
+    o = palpha.parse_formula(s, cfg)
+
+    def enc(obs):
+        return "X" if obs["st"] in ("ESCAPED", "PYSYNTAX", "TIMEOUT") else res_str(obs)
+
+    ast = "-"
+    if r["st"] == "OK":
+        try:
+            a = palpha.parser_for(cfg).get_ast(s, context=palpha.context_for(cfg))
+            ast = "None" if a is None else ast_str(a.flatten(str_args=True)) if hasattr(a, "flatten") else str(a)
+        except Exception:
+            ast = "-"
+    return {"id": i, "s": s, "cfg": {"intercept": cfg["intercept"], "flags": cfg["flags"], "present": cfg["avail"]["present"],
+                                     "vars": cfg["avail"]["vars"]},
+            "toks": toks, "r": enc(r), "o": enc(o), "ast": ast}
+
+
+class Gen:
+    def __init__(self, rng: random.Random):
+        self.r = rng
+
+    def signs(self, p=0.25):
+        r = self.r
+        if r.random() < p:
+            return [r.choice("+-") for _ in range(r.randint(1, 3))]
+        return []
+
+    def atom(self, d):
+        r = self.r
+        x = r.random()
+        if d > 0 and x < 0.25:
+            o, c = ("(", ")") if r.random() < 0.85 else ("[", "]")
+            return [o] + self.expr(d - 1) + [c]
+        if x < 0.70:
+            return [r.choice(NAMES[: r.randint(2, 12)])]
+        if x < 0.80:
+            return [r.choice(["0", "1", "2", "3"])]
+        if x < 0.86:
+            return [r.choice(["f(a)", "log(b)", "{a+1}", "C(c, contr.treatment)", "`x y`", "np.log( a )"])]
+        if x < 0.90:
+            return ["."]
+        if x < 0.92:
+            return [r.choice(['"s"', "2.5"])]
+        return [r.choice(NAMES[:4])]
+
+    def expr(self, d):
+        r = self.r
+        out = self.signs(0.15) + self.atom(d)
+        for _ in range(r.choice([0, 0, 1, 1, 2, 3])):
+            op = r.choice(["+", "+", "-", "*", "/", ":", ":", "%in%", "**", "^"])
+            out.append(op)
+            if op in ("**", "^") and r.random() < 0.8:
+                out.append(r.choice(["1", "2", "2", "3"]))
+            else:
+                out += self.signs(0.2) + self.atom(d)
+        return out
+
+    def side(self, d):
+        out = self.expr(d)
+        while self.r.random() < 0.15:
+            out += ["|"] + self.expr(d)
+        return out
+
+    def formula(self):
+        r = self.r
+        d = r.randint(0, 6)
+        x = r.random()
+        if x < 0.25:
+            toks = self.side(d) + ["~"] + self.side(d)
+        elif x < 0.32:
+            toks = ["~"] + self.side(d)
+        else:
+            toks = self.side(d)
+        if r.random() < 0.2 and toks:  # mutate: delete / duplicate / insert a token
+            j = r.randrange(len(toks))
+            m = r.random()
+            if m < 0.4:
+                del toks[j]
+            elif m < 0.7:
+                toks.insert(j, toks[j])
+            else:
+                toks.insert(j, r.choice(["+", "-", "~", "|", ")", "(", ":", "*", "0", "a"]))
+        # random spacing
+        s = ""
+        for t in toks:
+            s += t + r.choice(["", " ", " ", "  "])
+            if t[-1:].isalnum() or t[-1:] in "_.`)\"'}":
+                s += " " if (s[-1:] != " " and r.random() < 0.9) else ""
+        return s.strip()
+
+
+def corpus_from_repo_tests() -> list:
+    try:
+        sys.path.insert(0, "/repo")
+        from tests.parser.test_parser import FORMULA_TO_TERMS  # type: ignore
+
+        return [k for k in FORMULA_TO_TERMS if isinstance(k, str)]
+    except Exception:
+        return []
+    finally:
+        if sys.path and sys.path[0] == "/repo":
+            sys.path.pop(0)
+
+
+def run(ctx: Ctx) -> None:
+    rng = random.Random(1000003 * ctx.seed + 17)
+    g = Gen(rng)
+    n = 3000 if ctx.quick else 40000
+    forms = corpus_from_repo_tests() + [g.formula() for _ in range(n)]
+    jobs = []
+    for i, s in enumerate(forms):
+        cfg = {"intercept": rng.random() < 0.7, "flags": rng.choice(FLAGSETS),
+               "avail": rng.choice([{"present": True, "vars": rng.sample(NAMES[:6], 4)}, {"present": False, "vars": []}])}
+        jobs.append((i, s, cfg))
+    recs = [r for r in pmap("harness.props.c01_trace", "record", jobs) if r is not None]
+    if len(recs) < len(jobs) // 2:
+        raise MachineryError(f"trace driver produced only {len(recs)} usable records of {len(jobs)}")
+    wd = workdir("c01")
+    rejected = {}
+    accepted = 0
+    B = 4000
+    for b in range(0, len(recs), B):
+        batch = recs[b : b + B]
+        tf, rf = wd / f"trace{b}.json", wd / f"rej{b}.ndjson"
+        tf.write_text(json.dumps(batch))
+        if rf.exists():
+            rf.unlink()
+        r = run_tlc("Trace_Wilkinson", "SPECIFICATION Spec\nINVARIANT Check\n", tag="c01t",
+                    env={"TRACE_FILE": str(tf), "REJ_FILE": str(rf)}, timeout=1800)
+        if r.violated or r.distinct != len(batch):
+            raise MachineryError(f"trace validation did not consume the batch: {r.distinct} of {len(batch)} {r.violated}")
+        ctx.add_tlc(r, "Trace_Wilkinson batch")
+        for x in read_emitted(rf):
+            rejected[x["id"]] = x["verdict"]
+        tf.unlink()
+        if rf.exists():
+            rf.unlink()
+    byid = {r["id"]: r for r in recs}
+    skipped = 0
+    for i, v in rejected.items():
+        rec = byid[i]
+        if v == "skip":
+            skipped += 1
+            continue
+        if v.startswith("model:"):
+            raise MachineryError(f"specification disagrees with its own reference on {rec['s']!r} {rec['cfg']}")
+        ctx.violation({"formula": rec["s"], "cfg": {"intercept": rec["cfg"]["intercept"], "flags": rec["cfg"]["flags"],
+                                                    "avail": {"present": rec["cfg"]["present"], "vars": rec["cfg"]["vars"]}},
+                       "via": "trace"},
+                      {"formula": rec["s"], "verdict": v, "observed_get_terms": rec["r"], "observed_formula": rec["o"],
+                       "observed_ast": rec["ast"]}, kind="trace")
+    ctx.traces += len(recs) - skipped
+    ctx.evaluations += len(recs)
+    for r in recs:
+        if r["r"] not in ("R", "X") and r["id"] not in rejected and len(r["toks"]) >= 5:
+            ctx.nontrivial.add(("T", r["s"], json.dumps(r["cfg"], sort_keys=True)))
+    for r in recs[:: max(1, len(recs) // 2)][:2]:
+        ctx.sample({"trace_record": {"formula": r["s"], "cfg": r["cfg"], "observed": r["r"]}})
+    ctx.notes["trace_records"] = len(recs)
+    ctx.notes["trace_records_unmodelled"] = skipped
+    ctx.notes["trace_records_accepted_ok"] = sum(1 for r in recs if r["r"] not in ("R", "X") and r["id"] not in rejected)
